@@ -1,5 +1,5 @@
 (** C17 - the invariant of the whole pool, preserved by every step, lifted to all finite histories. *)
-From Dashu Require Import Base.Prelude Base.Words Int.StorageModel Int.StorageProofs.
+From Dashu Require Import Base.Prelude Base.Words Int.StorageModel Int.StorageProofs Int.StorageArith.
 From Coq Require Import Permutation.
 Open Scope Z_scope.
 
@@ -80,8 +80,19 @@ Definition opnd_ok (n : nat) (o : opnd) : Prop :=
   | ByStatic s ws => ws = [] \/ last ws 0 <> 0     (* static_ubig!/static_ibig! assert a normalized array *)
   end.
 
-(** the storage operations of the property: construction, clone, clone_from between values of any
-    sizes (also of a static), drop, move, swap, negation, abs *)
+(** the value the oracle's re-synchronisation device OInstall puts into a slot (block id p) *)
+Definition install_repr (s : sign) (ws : list Z) (cap p : Z) : repr :=
+  match ws with
+  | [] => zero
+  | [x] => with_sign (from_word x) s
+  | [x; y] => with_sign (from_dword w (x + Bw w * y)) s
+  | _ => RHeap s (mkbuf p ws cap)
+  end.
+
+(** well-formed steps: EVERY constructor of [op] is admitted.  Slots exist, statics are normalized, bit
+    counts are non-negative (usize), and OInstall - not an operation of the library but the device by which
+    the oracle re-synchronises the machine with a reported layout - installs a value that passes the
+    executable invariant check it is guarded with. *)
 Definition op_ok (n : nat) (o : op) : Prop :=
   match o with
   | OCtor d (COnes k) => (d < n)%nat /\ 0 <= k
@@ -89,8 +100,75 @@ Definition op_ok (n : nat) (o : op) : Prop :=
   | OClone d a | OCloneFrom d a => (d < n)%nat /\ opnd_ok n a
   | ODrop d | ONeg d | OAbs d => (d < n)%nat
   | OMove d s | OSwap d s => (d < n)%nat /\ (s < n)%nat
-  | _ => False
+  | OBin _ d a b => (d < n)%nat /\ opnd_ok n a /\ opnd_ok n b
+  | OShl d a k | OShr d a k => (d < n)%nat /\ opnd_ok n a /\ 0 <= k
+  | OSetBit d k | OClrBit d k => (d < n)%nat /\ 0 <= k
+  | OInstall d s ws cap => (d < n)%nat /\ repr_ok_b w M (install_repr s ws cap 0) = true
   end.
+
+(** the executable invariant check implies the invariant *)
+Lemma repr_ok_b_inv r : repr_ok_b w M r = true -> ReprInv r.
+Proof.
+  destruct r as [s lo hi cap|s b]; cbn [repr_ok_b ReprInv]; intros H.
+  - apply andb_prop in H. destruct H as [_ H]. apply orb_prop in H. destruct H as [H|H].
+    + left. apply andb_prop in H. destruct H as [H H3]. apply andb_prop in H. destruct H as [H1 H2].
+      apply Z.eqb_eq in H1. apply Z.eqb_eq in H2. repeat split; auto. intros ->. cbn in H3. destruct s; [reflexivity | discriminate].
+    + right. apply andb_prop in H. destruct H as [H1 H2]. apply Z.eqb_eq in H1. split; auto.
+      intros ->. cbn in H2. discriminate.
+  - apply andb_prop in H. destruct H as [H H5]. apply andb_prop in H. destruct H as [H H4].
+    apply andb_prop in H. destruct H as [H H3]. apply andb_prop in H. destruct H as [H1 _].
+    apply Z.leb_le in H1. apply Z.leb_le in H4. apply Z.leb_le in H5.
+    repeat split; auto. intros E. rewrite E in H3. cbn in H3. discriminate.
+Qed.
+
+Lemma wp_install s ws cap F m (Q : repr -> mem -> Prop) :
+  Own F m -> repr_ok_b w M (install_repr s ws cap 0) = true ->
+  (forall r m', Own (rblks r ++ F) m' -> ReprInv r -> repr_ok_b w M r = true -> Q r m') ->
+  safe (install w M s ws cap) m Q.
+Proof.
+  intros HO Hok HQ. destruct ws as [|x [|y [|z rest]]]; cbn [install install_repr] in *;
+    try (apply safe_ret; apply HQ; [first [rewrite rblks_with_sign | idtac]; exact HO | apply repr_ok_b_inv; exact Hok | exact Hok]).
+  pose proof (repr_ok_b_inv _ Hok) as HI. cbn [ReprInv bws bcap] in HI. destruct HI as (H1 & H2 & H3).
+  pose proof (max_compact_le_M M (len (x :: y :: z :: rest))).
+  apply safe_bind. eapply wp_allocate_raw; [exact HO | lia |]. intros p m' HO'. apply safe_ret.
+  apply HQ; [exact HO' | cbn [ReprInv bws bcap]; auto | exact Hok].
+Qed.
+
+Lemma typed_inv r : ReprInv r -> TargInv M (typed w r) /\ tblks (typed w r) = rblks r /\ is_ref (typed w r) = false.
+Proof.
+  destruct r as [s lo hi cap|s b]; cbn [typed TargInv tblks rblks ReprInv is_ref]; [auto|].
+  intros (H1 & H2 & H3). pose proof (max_compact_le_M M (len (bws b))). repeat split; auto; lia.
+Qed.
+
+Lemma typed_ref_inv v : ViewInv M v -> TargInv M (typed_ref w v) /\ tblks (typed_ref w v) = [].
+Proof. destruct v as [s lo hi cap|s ws cap]; cbn [typed_ref TargInv tblks ViewInv]; [auto|]. intros (H1 & _). auto. Qed.
+
+(** fetching an operand: a by-value operand is moved out of the pool (its block now belongs to the operand) *)
+Lemma fetch_spec a pool s x p1 :
+  opnd_ok (length pool) a -> Forall ReprInv pool -> fetch w a pool = ((s, x), p1) ->
+  length p1 = length pool /\ Forall ReprInv p1 /\ TargInv M x /\ Permutation (blocks pool) (tblks x ++ blocks p1) /\
+  (match a with ByVal _ => is_ref x = false | _ => True end).
+Proof.
+  intros Ha HI E. destruct a as [i|i|s' ws]; cbn [fetch opnd_ok] in *; injection E as <- <- <-.
+  - destruct (typed_inv (get i pool) (get_inv i pool HI)) as (T1 & T2 & T3).
+    split; [apply length_set_nth|]. split; [apply Forall_set_nth; auto; apply ReprInv_zero|].
+    split; [exact T1|]. split; [rewrite T2; apply blocks_take; exact Ha | exact T3].
+  - destruct (typed_ref_inv _ (ViewInv_view_of M _ (get_inv i pool HI))) as (T1 & T2).
+    rewrite T2. cbn [app]. repeat split; auto.
+  - destruct (typed_ref_inv _ (ViewInv_static M s' ws Ha)) as (T1 & T2).
+    rewrite T2. cbn [app]. repeat split; auto.
+Qed.
+
+Lemma wp_store_out d o pool n m :
+  (d < length pool)%nat -> Forall ReprInv pool -> length pool = n ->
+  match o with Done r => Own (rblks r ++ blocks pool) m /\ ReprInv r | Thrown _ => Own (blocks pool) m end ->
+  safe (store_out d o pool) m (fun pr m' => StateInv (fst pr) m' /\ length (fst pr) = n).
+Proof.
+  intros Hd HI Hn Ho. destruct o as [r|y]; cbn [store_out].
+  - destruct Ho as [HO HR]. apply safe_bind. eapply wp_store; [exact Hd | exact HO |]. intros m2 HO2. apply safe_ret. cbn [fst].
+    split; [split; [apply Forall_set_nth; auto | exact HO2] | rewrite length_set_nth; exact Hn].
+  - apply safe_ret. cbn [fst]. split; [split; assumption | exact Hn].
+Qed.
 
 Lemma opnd_view_inv n a pool : n = length pool -> opnd_ok n a -> Forall ReprInv pool -> ViewInv M (opnd_view a pool).
 Proof.
@@ -119,7 +197,7 @@ Theorem step_safe o pool m :
   op_ok (length pool) o -> StateInv pool m ->
   safe (step w M o pool) m (fun pr m' => StateInv (fst pr) m' /\ length (fst pr) = length pool).
 Proof.
-  intros Hok [HI HO]. destruct o; cbn [op_ok] in Hok; try contradiction; cbn [step].
+  intros Hok [HI HO]. destruct o; cbn [op_ok] in Hok; cbn [step].
   - (* OCtor *)
     assert ((d < length pool)%nat /\ match c with COnes k => 0 <= k | _ => True end) as [Hd Hc] by (destruct c; tauto).
     apply safe_bind. eapply wp_run_ctor; [exact HO | exact Hc |]. intros r m1 HO1 HR.
@@ -173,6 +251,48 @@ Proof.
     + apply Forall_set_nth; auto. apply ReprInv_with_sign. apply get_inv. exact HI.
     + eapply Own_perm; [|exact HO]. pose proof (blocks_set_nth d (with_sign (get d pool) Positive) pool Hok) as P.
       rewrite rblks_with_sign in P. apply Permutation_sym. eapply Permutation_app_inv_l. exact P.
+  - (* OBin: add / sub / mul of UBig and IBig, operands by value, by reference or static *)
+    destruct Hok as (Hd & Ha & Hb).
+    destruct (fetch w a pool) as [[s0 x] p1] eqn:E1.
+    destruct (fetch_spec a pool s0 x p1 Ha HI E1) as (L1 & I1 & T1 & P1 & _).
+    destruct (fetch w b p1) as [[s1 y] p2] eqn:E2. rewrite <- L1 in Hb.
+    destruct (fetch_spec b p1 s1 y p2 Hb I1 E2) as (L2 & I2 & T2 & P2 & _).
+    apply safe_bind. eapply (wp_run_bin w M M_big f s0 x s1 y (blocks p2)); [| exact T1 | exact T2 |].
+    + eapply Own_perm; [|exact HO]. eapply perm_trans; [exact P1|]. apply Permutation_app_head. exact P2.
+    + intros o m1 Ho. apply wp_store_out; auto; lia.
+  - (* OShl *)
+    destruct Hok as (Hd & Ha & Hk).
+    destruct (fetch w a pool) as [[s0 x] p1] eqn:E1.
+    destruct (fetch_spec a pool s0 x p1 Ha HI E1) as (L1 & I1 & T1 & P1 & _).
+    apply safe_bind. eapply (wp_shl_mag w M w_pos M_big x n (blocks p1)); [| exact T1 | exact Hk |].
+    + eapply Own_perm; [exact P1 | exact HO].
+    + intros r m1 HO1 HR. apply (wp_store_out d (Done r) p1 (length pool)); auto; lia.
+  - (* OShr *)
+    destruct Hok as (Hd & Ha & Hk).
+    destruct (fetch w a pool) as [[s0 x] p1] eqn:E1.
+    destruct (fetch_spec a pool s0 x p1 Ha HI E1) as (L1 & I1 & T1 & P1 & _).
+    apply safe_bind. eapply (wp_shr_mag w M w_pos M_big x n (blocks p1)); [| exact T1 | exact Hk |].
+    + eapply Own_perm; [exact P1 | exact HO].
+    + intros r m1 HO1 HR. apply (wp_store_out d (Done r) p1 (length pool)); auto; lia.
+  - (* OSetBit *)
+    destruct Hok as (Hd & Hk).
+    destruct (fetch w (ByVal d) pool) as [[s0 x] p1] eqn:E1.
+    destruct (fetch_spec (ByVal d) pool s0 x p1 Hd HI E1) as (L1 & I1 & T1 & P1 & R1).
+    apply safe_bind. eapply (wp_set_bit w M w_pos M_big x n (blocks p1)); [| exact T1 | exact R1 | exact Hk |].
+    + eapply Own_perm; [exact P1 | exact HO].
+    + intros r m1 HO1 HR. apply (wp_store_out d (Done r) p1 (length pool)); auto; lia.
+  - (* OClrBit *)
+    destruct Hok as (Hd & Hk).
+    destruct (fetch w (ByVal d) pool) as [[s0 x] p1] eqn:E1.
+    destruct (fetch_spec (ByVal d) pool s0 x p1 Hd HI E1) as (L1 & I1 & T1 & P1 & R1).
+    apply safe_bind. eapply (wp_clear_bit w M M_big x n (blocks p1)); [| exact T1 | exact R1 |].
+    + eapply Own_perm; [exact P1 | exact HO].
+    + intros r m1 HO1 HR. apply (wp_store_out d (Done r) p1 (length pool)); auto; lia.
+  - (* OInstall *)
+    destruct Hok as (Hd & Hk).
+    apply safe_bind. eapply wp_install; [exact HO | exact Hk |]. intros r m1 HO1 HR Hr.
+    apply safe_bind. apply safe_guard; [exact Hr|].
+    apply (wp_store_out d (Done r) pool (length pool)); auto.
 Qed.
 
 (** all finite histories *)
@@ -223,7 +343,7 @@ Example history_example :
   let ops := [OCtor 0%nat (COnes 200); OCtor 1%nat (CWords Negative [1; 2; 3; 4; 5; 6; 7; 8; 9]); OCloneFrom 0%nat (ByRef 1%nat);
               OCloneFrom 1%nat (ByStatic Positive [5; 0; 1]); OClone 2%nat (ByRef 0%nat); OCloneFrom 2%nat (ByRef 2%nat);
               OCtor 0%nat (CDword Positive 7); OCloneFrom 1%nat (ByRef 0%nat); OMove 3%nat 2%nat; ONeg 3%nat; OSwap 0%nat 3%nat; ODrop 1%nat] in
-  Forall (op_ok 4) ops /\
+  Forall (op_ok 64 (2 ^ 58) 4) ops /\
   match run 64 (2 ^ 58) ops (repeat zero 4) mem0 with
   | Ok (pool, m) => nlive m = 1 /\ map (signed_cap) pool = [12; 1; 1; 1] /\
                     match drop_all pool m with Ok (_, m') => nlive m' = 0 /\ nwords m' = 0 | _ => False end
@@ -231,6 +351,36 @@ Example history_example :
   end.
 Proof.
   cbn zeta. split.
-  - repeat constructor; cbn; try lia; auto; right; cbn; lia.
+  - repeat (apply Forall_cons || apply Forall_nil); cbn [op_ok opnd_ok]; repeat split; try lia; right; cbn [last]; lia.
+  - vm_compute. repeat split; reflexivity.
+Qed.
+
+(** non-vacuity of the arithmetic steps: additions / subtractions / multiplications in by-value, by-reference
+    and static call forms that cross the inline/heap boundary both ways, an in-place and a reallocating
+    shift, a documented panic with borrowed and with owned operands (released), set_bit growing the buffer
+    and clear_bit shrinking the value back to one word; the ledger balances *)
+Example history_example_arith :
+  let ops := [OCtor 0%nat (CDword Positive (2 ^ 128 - 1)); OCtor 1%nat (CDword Negative 1);
+              OBin BISub 2%nat (ByRef 0%nat) (ByRef 1%nat); OBin BIAdd 3%nat (ByVal 2%nat) (ByRef 1%nat);
+              OBin BMul 2%nat (ByRef 0%nat) (ByRef 0%nat); OBin BMul 2%nat (ByVal 2%nat) (ByRef 2%nat);
+              OBin BMul 2%nat (ByRef 0%nat) (ByRef 0%nat); OBin BIMul 3%nat (ByRef 2%nat) (ByStatic Negative [5; 0; 1]);
+              OShl 2%nat (ByVal 2%nat) 64; OShl 2%nat (ByVal 2%nat) 200;
+              OBin BSub 0%nat (ByRef 0%nat) (ByRef 2%nat); OBin BSub 0%nat (ByVal 0%nat) (ByVal 2%nat);
+              OAbs 1%nat; OSetBit 1%nat 640; OClrBit 1%nat 640; OSetBit 1%nat 200; OShr 0%nat (ByRef 3%nat) 100;
+              OBin BAdd 2%nat (ByRef 3%nat) (ByVal 0%nat)] in
+  Forall (op_ok 64 (2 ^ 58) 4) ops /\
+  map (fun k => match run 64 (2 ^ 58) (firstn k ops) (repeat zero 4) mem0 with
+                | Ok (pool, m) => (nlive m, map signed_cap pool) | _ => (-1, []) end) [3; 4; 8; 10; 12; 14; 15]%nat
+  = [(1, [2; -1; 5; 1]); (0, [2; -1; 1; 2]); (2, [2; -1; 6; -9]); (2, [2; -1; 12; -9]); (1, [1; -1; 1; -9]);
+     (2, [1; 14; 1; -9]); (1, [1; 1; 1; -9])] /\
+  match run 64 (2 ^ 58) ops (repeat zero 4) mem0 with
+  | Ok (pool, m) => nlive m = 3 /\ nwords m = 23 /\ map (signed_cap) pool = [1; 6; 8; -9] /\
+                    match drop_all pool m with Ok (_, m') => nlive m' = 0 /\ nwords m' = 0 | _ => False end
+  | _ => False
+  end.
+Proof.
+  cbn zeta. split; [|split].
+  - repeat (apply Forall_cons || apply Forall_nil); cbn [op_ok opnd_ok]; repeat split; try lia; right; cbn [last]; lia.
+  - vm_compute. reflexivity.
   - vm_compute. repeat split; reflexivity.
 Qed.
